@@ -4,10 +4,12 @@ Correspondence: graph.compute_SCCs on live DiGraph objects vs the extracted mode
 same presentation (dict order and set iteration order read back from the object)."""
 from common import *
 from graphgen import *
+import c12_readers as readers
 LEVEL = 'proof'
 
 
 FORM = [0]
+CONSTRUCTOR_FORMS = (0, 3, 4, 5)          # the forms of one_case that hand the edge LIST to the constructor
 KINDS_OF_BUILD = {1: 'add_node then add_edge calls', 2: 'add_edge calls then add_node', 3: 'iterators', 4: 'tuple / zip', 5: 'list / generator'}
 
 
@@ -142,7 +144,18 @@ def run(R):
               'compared with the model on the index graph. Stream "histories": compute -> edit -> compute on several objects: '
               'add_edge between existing nodes / to new nodes, add_node, failing duplicates, clone / reversed / subgraph (work '
               'continues on the derived object or on the original); after EVERY step compute_SCCs of EVERY object of the history '
-              'is compared with the model on that object\'s current presentation')
+              'is compared with the model on that object\'s current presentation. Stream "repeated edges": the edge list E '
+              'given to the constructor (list / iterator / zip / generator forms; renamed nodes too) names some edges several '
+              'times - still the digraph (V, set(E)). Stream "readings" (c12_readers.py): compute_SCCs is a generator, so '
+              'evaluations have a lifetime; scripts over 1-2 graph objects (same object / clone / unrelated) and several '
+              'evaluation handles: a reader stops after k components (closed, forgotten or kept and resumed later) and the '
+              'question is asked again; nested loops (outer x inner over the same or another graph); several evaluations '
+              'alive at once read in lockstep (zip) or by a random schedule; evaluation asked for -> graph edited (new edges, '
+              'new nodes) -> consumed; random scripts. Every handle must give pairwise disjoint distinct members of the '
+              'partition (all of it when read to the end) of its graph at ONE moment: when first read (what the lazy '
+              'library does) or when asked for - the model is run on both presentations; a graph is never edited while one of '
+              'its evaluations is suspended mid-way. Exhaustive part: every graph with <= 3 nodes (quick: every 2nd with 3) '
+              'under stop-after-k-and-ask-again and nested-with-itself')
     rng = R.rng
     run_large(R)
     cases = []
@@ -168,9 +181,30 @@ def run(R):
         V = list(range(n))
         rng.shuffle(V)
         cases.append((V, rand_digraph(rng, n)))
+    # repeated edges: E names an edge several times (only the constructor takes an edge LIST; add_edge refuses a second time)
+    rng2 = random.Random(R.seed + 123)
+    ndup = 0
+    for n in range(1, 4):
+        for j, E in enumerate(all_digraphs(n)):
+            if E and (n < 3 or R.thorough or j % 4 == 0):
+                E2 = E + [E[j % len(E)]] if j % 2 else [E[j % len(E)]] + E + [E[-1]]
+                cases.append((list(range(n)), E2, CONSTRUCTOR_FORMS[j % 4]))
+                ndup += 1
+    for _ in range(4000 if R.thorough else 400):
+        n = rng2.randint(1, 8)
+        V = list(range(n))
+        rng2.shuffle(V)
+        E = rand_digraph(rng2, n)
+        if E:
+            E = E + [rng2.choice(E) for _ in range(rng2.randint(1, 3))]
+            if rng2.random() < 0.7:
+                rng2.shuffle(E)
+            cases.append((V, E, rng2.choice(CONSTRUCTOR_FORMS)))
+            ndup += 1
     cmds, meta = [], []
-    for (V, E) in cases:
-        G, r, unchanged, notes = one_case(V, E)
+    for case in cases:
+        V, E = case[0], case[1]
+        G, r, unchanged, notes = one_case(V, E, case[2] if len(case) > 2 else None)
         meta.append((V, E, r, unchanged, FORM[-1], notes))
         cmds.append(['scc', graph_sx(G)])
     outs = model_batch_parallel(cmds)
@@ -202,9 +236,11 @@ def run(R):
             R.nontriv((tuple(V), tuple(sorted(E))))
             R.sample({"V": V, "E": E, "components": impl_seq})
     R.cov['internal_agreement'] = {'yield_sequence_identical': order_agree, 'of': R.evaluations}
-    R.cov['distribution'] = {'n_nodes_hist': _hist(len(set(V) | {x for e in E for x in e}) for V, E, _, _, _, _ in meta)}
+    R.cov['distribution'] = {'n_nodes_hist': _hist(len(set(V) | {x for e in E for x in e}) for V, E, _, _, _, _ in meta),
+                             'edge_lists_with_repeated_edges': ndup}
     run_renamed(R)
     run_chains(R)
+    run_readers(R)
     R.exhaustive = R.thorough
 
 
@@ -260,6 +296,14 @@ def run_renamed(R):
             V = list(range(n))
             rng.shuffle(V)
             E = rand_digraph(rng, n)
+            rng.shuffle(E)
+            cases.append((family, rand_picks(rng, family, n), V, E))
+        for _ in range(400 if R.thorough else 40):                  # the edge list names some edges several times
+            n = rng.randint(2, 6)
+            V = list(range(n))
+            rng.shuffle(V)
+            E = rand_digraph(rng, n, 0.4) or [(0, n - 1)]
+            E = E + [rng.choice(E) for _ in range(rng.randint(1, 3))]
             rng.shuffle(E)
             cases.append((family, rand_picks(rng, family, n), V, E))
     cmds, meta = [], []
@@ -352,6 +396,77 @@ def run_chains(R, only=None):
     return first
 
 
+def readers_cases(R):
+    rng = random.Random(R.seed + 121212)
+    cases = []
+    for n in range(1, 4):                                           # small graphs, every one: stop after k and ask again; nested with itself
+        for j, E in enumerate(all_digraphs(n)):
+            if n == 3 and not R.thorough and j % 2:
+                continue
+            V = list(range(n))
+            if j % 3 == 1:
+                V.reverse()
+            g = {'V': V, 'E': [list(e) for e in E]}
+            cases.append(readers.pattern_abandon(g, [(j % (n + 1), ('keep', 'drop', 'close', 'keep')[(j // (n + 1)) % 4])], j % 5 != 0))
+            if j % 2 == 0 or n < 3:
+                cases.append(readers.pattern_nested([g], 0, 0, n, readers.ALL if j % 7 else 1))
+    for pat in readers.PATTERNS:
+        for _ in range(3000 if R.thorough else 260):
+            cases.append(readers.rand_reading(rng, 5, pat))
+    return cases
+
+
+def readers_eval(R, case, handles, notes, model):
+    bad = list(notes)
+    for i, h in enumerate(handles):
+        b = readers.reader_bad(h, model)
+        if b:
+            bad.append('evaluation %d (of graph object %d) %s' % (i, h['g'], b))
+    return bad
+
+
+def run_readers(R, only=None):
+    cases = [only] if only else readers_cases(R)
+    runs, cmds, where = [], [], {}
+    for case in cases:
+        r = call(lambda: readers.exec_reading(case, call))
+        runs.append((case, r))
+        if r[0] == 'ok':
+            for p in readers.presentations(r[1][0]):
+                key = sx_str(p)
+                if key not in where:
+                    where[key] = len(cmds)
+                    cmds.append(['scc', p])
+    outs = model_batch_parallel(cmds)
+    model = lambda p: outs[where[sx_str(p)]]
+    hist, first, skipped, nh = {}, None, 0, 0
+    for case, r in runs:
+        if r[0] != 'ok':
+            R.evaluations += 1
+            R.violation('a reading of compute_SCCs could not be carried out: building its graphs raised %s' % r[1], {'stream': 'readings', 'case': case})
+            first = first or r[1]
+            continue
+        handles, notes, sk = r[1]
+        R.evaluations += len(handles)
+        bad = readers_eval(R, case, handles, notes, model)
+        if bad:
+            R.violation('compute_SCCs read the way callers read a generator (%s): %s' % (case['pattern'], '; '.join(bad[:3])),
+                        {'stream': 'readings', 'case': case, 'differs': bad,
+                         'handles': [{'graph_object': h['g'], 'read': h['copies'], 'to_the_end': h['exhausted'], 'graph_when_asked': h['at_new'],
+                                      'graph_when_first_read': h['at_first']} for h in handles]})
+            first = first or bad
+            continue
+        skipped += sk
+        nh += len(handles)
+        hist[case['pattern']] = hist.get(case['pattern'], 0) + 1
+        if len(handles) >= 2 and any(len(c) >= 2 for h in handles for c in h['copies']):
+            R.nontriv(('reading', json.dumps(case, sort_keys=True)))
+    if not only:
+        R.cov['readings'] = {'by_pattern': hist, 'evaluation_handles': nh, 'edits_skipped_because_an_evaluation_was_suspended': skipped,
+                             'distinct_model_evaluations': len(cmds)}
+    return first, runs, model
+
+
 def _hist(it):
     h = {}
     for x in it:
@@ -377,6 +492,21 @@ def replay(R, data):
         print('model:', [ints(c) for c in o])
         if renamed_bad(g, r, unchanged, notes, o):
             R.violation('replayed', d)
+        return
+    if d.get('stream') == 'readings':
+        what, runs, model = run_readers(R, only=d['case'])
+        print('reading:', d['case'])
+        for case, r in runs:
+            if r[0] != 'ok':
+                print('impl : raised', r[1])
+                continue
+            for i, h in enumerate(r[1][0]):
+                print('evaluation %d of graph object %d: impl read %r (to the end: %s)' % (i, h['g'], h['copies'], h['exhausted']))
+                print('    graph when asked for  %r -> model %r' % (h['at_new'], [ints(c) for c in model(h['at_new'])]))
+                if h['at_first'] is not None:
+                    print('    graph when first read %r -> model %r' % (h['at_first'], [ints(c) for c in model(h['at_first'])]))
+            print('notes:', r[1][1] or 'none')
+        print('disagreement:', what or 'none')
         return
     if d.get('stream') == 'histories':
         what = run_chains(R, only=d['chain'])
